@@ -135,7 +135,7 @@ def gen_s1(seed, corpus, ref, instr_frac=0.1, sa_frac=0.0):
         'families': fams, 'clients': clients, 'gran': gran, 'scope': scope,
         'cat_mode': _weighted(rng, [('shared', 7), ('client', 2), ('op', 1)]),
         'rnd_mode': _weighted(rng, [('shared', 6), ('client', 2), ('op', 2)]),
-        'meta_share': rng.random() < 0.6,
+        'meta_share': rng.random() < 0.6, 'tree_share': rng.random() < 0.2,
         'strategy': _strategy(rng, est), 'sched_seed': rng.randrange(1 << 30),
         'faults': [], 'gcs_at': [],
     }
@@ -239,6 +239,7 @@ def gen_sweep_base(seed, corpus, ref, fam, fam2=None):
         'cmd': 'sim', 'property': 'C20', 'sub': 'S1', 'seed': seed, 'hashseed': hashseed_for(seed),
         'families': [fam] if fam2 is None else [fam, fam2],
         'clients': clients, 'gran': 'line', 'scope': ['repo'], 'cat_mode': 'shared', 'rnd_mode': 'shared', 'meta_share': True,
+        'tree_share': rng.random() < 0.3,
         'strategy': {'kind': 'focus'}, 'sched_seed': rng.randrange(1 << 30), 'faults': [], 'gcs_at': [],
     }
 
